@@ -295,5 +295,229 @@ def describe(spec, inst):
     return {"spec": spec, "offered": [[t["id"], t["state"]] for t in inst["tasks"]]}
 
 
+def chain_closed(inst):
+    """every are_dependent pair of offered tasks is connected by a chain of OFFERED parents (so that the
+    precedence rows order the pair); if not, neither precedence nor exclusivity rows relate the two tasks"""
+    byid = {t["id"]: t for t in inst["tasks"]}
+    anc = {}
+
+    def ancestors(i):
+        if i not in anc:
+            anc[i] = set()
+            for p in byid[i]["parents"]:
+                if p in byid:
+                    anc[i].add(p)
+                    anc[i] |= ancestors(p)
+        return anc[i]
+    for a, b in inst["dependent"]:
+        if a in byid and b in byid and not (a in ancestors(b) or b in ancestors(a)):
+            return False
+    return True
+
+
+def sig_multikey(inst):
+    """FZ3-D: a worker has two keys of the same resource name (e.g. GPU:0 and GPU:1 in the worker profile)"""
+    for w in inst["workers"]:
+        names = [n for n, _, _ in w["res"]]
+        if len(names) != len(set(names)):
+            return True
+    return False
+
+
+def sig_same_worker_name(inst):
+    names = [w["name"] for w in inst["workers"]]
+    return len(names) != len(set(names))
+
+
+def tie_streams(ctx, specs, res, dist):
+    """S-z3-rows / S-z3-sat / S-z3-readback for the given runs.  Returns {case index: gallina instance}."""
+    rows_cases, sat_cases, rb_cases = [], [], []
+    gis = {}
+    for i, (spec, r) in enumerate(zip(specs, res)):
+        inst = r["instance"]
+        if sig_duplicates(inst):
+            continue                      # F10 (other property): a task offered twice; the dict keeps one entry
+        gi = g_instance(inst)
+        if r["error"]:
+            rows_cases.append(("(%s, [])" % gi, [1, r["error"][0]], {"spec": spec, "error": r["error"]}))
+            continue
+        if r.get("formulas") is None:
+            ctx.violation("dump%d" % i, {"stream": "S-z3-rows", "spec": spec, "what": "the scheduler asserted a row outside the "
+                                          "modelled language: " + str(r.get("dump_error"))})
+            continue
+        gis[i] = gi
+        dist["rows"] = dist.get("rows", 0) + len(r["formulas"])
+        rows_cases.append(("(%s, %s)" % (gi, glist([gval(f) for f in r["formulas"]])), [0, [], []],
+                           {"spec": spec, "n_rows": len(r["formulas"])}))
+        cands = r["candidates"]
+        dist["candidates"] = dist.get("candidates", 0) + len(cands)
+        dist["candidates_sat"] = dist.get("candidates_sat", 0) + sum(c[1] for c in cands)
+        sat_cases.append(("(%s, %s)" % (gi, glist([g_asg(c[0]) for c in cands])), [0, [c[1] for c in cands]],
+                          {"spec": spec, "n_candidates": len(cands)}))
+        if r.get("solver_model") is not None:
+            rb_cases.append(("(%s, %s)" % (gi, g_asg(r["solver_model"])), [0, canon_placements(r)], {"spec": spec}))
+
+    def stream(name, in_type, fn, cases, what):
+        try:
+            mism = ctx.model_stream(name, HEADER, in_type, fn, cases, shard=40)
+            for idx, mv in mism[:3]:
+                ctx.violation("%s%d" % (name.replace("-", ""), idx),
+                              {"stream": name, "case": cases[idx][2], "expected_from_implementation": cases[idx][1],
+                               "model": mv, "what": what})
+        except core.ModelEvalError as e:
+            ctx.broken.append({"kind": "correspondence", "name": name, "detail": str(e)[-600:]})
+
+    stream("S-z3-rows", "instance * list val", "obs_rows", rows_cases,
+           "the rows asserted by Z3Scheduler differ from gen_z3 (model rows missing in the implementation / implementation "
+           "rows missing in the model), or one side raises and the other does not")
+    stream("S-z3-sat", "instance * list (list (var * Z))", "obs_sat", sat_cases,
+           "z3's evaluation of the asserted rows and the model's sat disagree on a candidate assignment")
+    stream("S-z3-readback", "instance * list (var * Z)", "obs_readback", rb_cases,
+           "the returned placements differ from readback of the solver's values")
+    return gis
+
+
+def points_of(r):
+    pts = [("feasible", a) for a in r["feasible"]] + [("adversarial:" + k, a) for k, a in r["adversarial"]]
+    if r.get("solver_model") is not None:
+        pts.append(("optimum", r["solver_model"]))
+    return pts
+
+
+RULE = ("S-z3: generated worlds (1-3 workers in 1-2 pools, 1-2 resource types with per-key totals 1-3 (profile `odd`: zero "
+        "quantities, two keys of one name, equal worker names), 1-2 task graphs of 1-4 tasks with random DAG edges and 1-2 "
+        "strategies each, states released / virtual / running (holding resources) / scheduled / completed, lookahead, "
+        "retract_schedules, release_taskgraphs, enforce_deadlines, rarely preemptive) are built as real "
+        "Task/TaskGraph/Workload/Worker/WorkerPools objects; the real Z3Scheduler.schedule() runs with z3.Optimize.check "
+        "wrapped; candidate assignments = models enumerated by z3 from the captured rows, one-variable perturbations of them "
+        "(with and without recomputing the defined variables from their documented meaning) and random points; "
+        "distinct = distinct extracted instance")
+
+
 def run(ctx):
-    raise NotImplementedError("C10_z3 check is being built")
+    quick = ctx.tier == "quick"
+    ctx.fingerprint(FILES)
+    ctx.translate(["Z3"])
+    ctx.build(ctx.pid, deps=["Model/Z3Model.v"])
+    n = 100 if quick else 1000
+    specs = [gen_spec(ctx.rng, ["mixed", "busy", "mixed", "odd", "single"][i % 5]) for i in range(n)]
+    res = run_specs(ctx, specs, n_models=5 if quick else 8, n_rand=8 if quick else 16)
+    ctx.rules.append(RULE + "; non-trivial = at least two offered tasks that can be placed on a common worker, or a partially "
+                            "occupied worker, or the call raises")
+    dist = {"offered": {}, "errors": 0, "busy_workers": 0, "multikey": 0, "known_crash_signature": 0,
+            "adversarial_found": {}, "unchanged_checked": 0}
+    gis = tie_streams(ctx, specs, res, dist)
+    seen = set()
+    nontriv = 0
+    pts, where = [], []
+    ret, ret_where = [], []
+    for i, (spec, r) in enumerate(zip(specs, res)):
+        inst = r["instance"]
+        key = json.dumps(inst, sort_keys=True)
+        busyw = any(a != t for w in inst["workers"] for _, t, a in w["res"])
+        common = sum(1 for t in inst["tasks"] if _any_compatible(inst, t)) >= 2
+        if key not in seen:
+            seen.add(key)
+            nontriv += bool(common or busyw or r["error"])
+        dist["offered"][len(inst["tasks"])] = dist["offered"].get(len(inst["tasks"]), 0) + 1
+        dist["busy_workers"] += busyw
+        dist["multikey"] += sig_multikey(inst)
+        # ---- returns normally
+        if r["error"]:
+            dist["errors"] += 1
+            if sig_width_zero(inst) or sig_extract(inst):
+                dist["known_crash_signature"] += 1
+            else:
+                ctx.violation("raise%d" % i, {"stream": "S-z3 returns-normally", "spec": spec, "instance": inst,
+                                               "error": r["error"], "what": "Z3Scheduler.schedule() raised"})
+        elif (sig_width_zero(inst) or sig_extract(inst)) and not sig_duplicates(inst):
+            ctx.violation("sig%d" % i, {"stream": "S-z3 returns-normally", "spec": spec, "instance": inst,
+                                         "what": "finding signature FZ3-A/B matches an input on which schedule() returned: the "
+                                                 "signature is wider than the finding"})
+        # ---- side effects
+        dist["unchanged_checked"] += 1
+        if not r["unchanged"]:
+            ctx.violation("effect%d" % i, {"stream": "S-z3 getters before/after", "spec": spec, "diff": r.get("diff"),
+                                            "what": "schedule() changed the live cluster / task state"})
+        if i not in gis:
+            continue
+        for k, a in r["adversarial"]:
+            dist["adversarial_found"][k] = dist["adversarial_found"].get(k, 0) + 1
+        for why, a in points_of(r):
+            pts.append("(%s, %s)" % (gis[i], g_asg(a)))
+            where.append((i, why, a))
+        # ---- the returned decisions themselves
+        if r.get("placements") is not None:
+            ds = ["(Placed %s %s %s %s)" % (gz(p[0]), gz(p[3]), gz(p[4]), gz(p[5])) if p[2] else "(Unplaced %s)" % gz(p[0])
+                  for p in r["placements"]]
+            ret.append("(%s, %s)" % (gis[i], glist(ds)))
+            ret_where.append(i)
+            if any(p[1] != 4 for p in r["placements"]):
+                ctx.violation("ptype%d" % i, {"spec": spec, "placements": r["placements"], "what": "a decision that is not PLACE_TASK"})
+    ctx.cov["distinct_nontrivial"] = nontriv
+    ctx.cov["input_distribution"] = dist
+    ctx.sample({"stream": "S-z3", "spec": specs[0], "instance": res[0]["instance"], "placements": res[0].get("placements")})
+
+    def monitor(name, fn, cases, wh, what, known_sig=None, known_name=None):
+        try:
+            bad = ctx.monitor_stream(name, HEADER, "instance * list (var * Z)" if cases is pts else "instance * list decision",
+                                     fn, cases, shard=120)
+        except core.ModelEvalError as e:
+            ctx.broken.append({"kind": "monitor", "name": name, "detail": str(e)[-500:]})
+            return
+        n_known = 0
+        shown = 0
+        for b in bad:
+            i = wh[b][0] if isinstance(wh[b], tuple) else wh[b]
+            if known_sig and known_sig(res[i]["instance"]):
+                n_known += 1
+                continue
+            if shown < 3:
+                shown += 1
+                rep = {"stream": name, "spec": specs[i], "instance": res[i]["instance"], "what": what}
+                if isinstance(wh[b], tuple):
+                    rep["point"] = wh[b][1]
+                    rep["assignment"] = wh[b][2]
+                else:
+                    rep["placements"] = res[i]["placements"]
+                ctx.violation("%s_%d" % (name.replace("-", ""), b), rep)
+        if known_name:
+            dist["failing_under_signature_" + known_name] = n_known
+
+    monitor("S-z3-decisions", "(fun p => decisions_ok (fst p) (asg_of (snd p)))", pts, where,
+            "a feasible point of the asserted system does not read back as one well-formed decision per offered task "
+            "(existing worker of the named pool, start >= now and >= release)")
+    monitor("S-z3-returned", "(fun p => returned_ok (fst p) (snd p))", ret, ret_where,
+            "the returned placements are not exactly one well-formed decision per offered task")
+    monitor("S-z3-slots", "(fun p => slots_ok (fst p) (asg_of (snd p)))", pts, where,
+            "two tasks whose executions touch on one worker hold the same resource slot in a feasible point",
+            known_sig=lambda ins: not chain_closed(ins), known_name="open_chain")
+    monitor("S-z3-capacity", "(fun p => capacity_ok (fst p) (asg_of (snd p)))", pts, where,
+            "the demand of the tasks executing at some start instant exceeds a worker's available quantity in a feasible point",
+            known_sig=lambda ins: sig_multikey(ins) or not chain_closed(ins), known_name="FZ3-D")
+    replay_known(ctx)
+
+
+def replay_known(ctx):
+    for fname, w in load_corpus("C10_z3"):
+        r = core.run_impl("z3sched.py", {"cases": [w["spec"]], "seed": 0, "n_models": 1, "n_rand": 0})["cases"][0]
+        f = w.get("finding")
+        if f in ("FZ3-A", "FZ3-B"):
+            if r["error"] and r["error"][0] == 1 and w["expect"] in r["error"][1]:
+                ctx.known(f, "Z3Scheduler.schedule() raises Z3Exception %s (%s)" % (w["expect"], fname))
+        elif f == "FZ3-D":
+            # returned placements exceed the worker's capacity
+            inst = r["instance"]
+            pl = [p for p in (r.get("placements") or []) if p[2]]
+            byid = {t["id"]: t for t in inst["tasks"]}
+            over = False
+            for p in pl:
+                for k, wk in enumerate(inst["workers"]):
+                    for rn in {n for n, _, _ in wk["res"]}:
+                        load = sum(sum(q for rr, q in byid[o[0]]["strats"][0][1] if rr == rn)
+                                   for o in pl if o[5] == k and o[3] <= p[3] < o[3] + byid[o[0]]["remaining"])
+                        if load > _avail(wk, rn):
+                            over = True
+            if over:
+                ctx.known(f, "the placements returned by Z3Scheduler exceed a worker's capacity when the worker has two keys "
+                             "of one resource name (%s)" % fname)
